@@ -1,6 +1,6 @@
 (* Executed instance of the `interp` family (C14 strength of connection, C12 interpolation) at Qc. *)
 From Coq Require Import QArith Qcanon Qcabs.
-From Raptor Require Import Base.Sums Sparse.Defs Extract.Inst Amg.Strength Amg.Interp.
+From Raptor Require Import Base.Sums Sparse.Defs Extract.Inst Amg.Strength Amg.Interp Amg.Truncate.
 
 Local Open Scope Qc_scope.
 
@@ -19,3 +19,5 @@ Definition q_mod_classical := mod_classical_interpolation Qc 0 1 Qcplus Qcmult Q
 Definition q_extended := extended_interpolation Qc 0 1 Qcplus Qcmult Qcopp Qcdiv Qc_ltb Qc_small.
 (* the value of a C row is compared with tolerance-free equality: the implementations store exactly 1.0 *)
 Definition q_interp_ok := interp_ok Qc 0 1 Qcplus Qc_ltb Qc_eqb Qc_close1.
+(* filter_interp: |w| >= thr * row_max kept, rescaled when |kept sum| > 1e-16 and |row sum - kept sum| > 1e-16 *)
+Definition q_filter_interp := filter_interp (F:=Qc) 0 Qcplus Qcmult Qcminus Qcdiv Qcabs Qc_ltb Qc_big.
